@@ -43,6 +43,9 @@ def generate(rseed, tier='quick'):
   rules = []
   names = []
   saved_names = []
+  # legal model names: with dots, one a prefix of another, with dashes and digits
+  name_pool = r.sample(['fc', 'fc.v2', 'net.v1', 'run-1.0', 'a.b.c', 'model.int8', 'x.tflite.bak'], 4)
+  knobs['folder_trailing_slash'] = r.random() < 0.25
   generations = r.randint(1, 3) if r.random() < 0.8 else 4
   for g in range(generations):
     for _ in range(r.randint(1, 4)):
@@ -60,7 +63,7 @@ def generate(rseed, tier='quick'):
       if r.random() < 0.2:
         e = editgen.draw_edit(r, spec, pool, 0, rules, False)
         ops.append(e)  # edit between quantize and save: save() must write the quantized recipe
-    name = 'm%d' % len(names)
+    name = name_pool.pop(0) if name_pool and r.random() < 0.45 else 'm%d' % len(names)
     via = 'save' if did_q and r.random() < 0.8 else 'dump'
     if knobs['faults'] and via == 'save' and saved_names and r.random() < 0.3:
       # save() into a name that already holds an earlier generation: must raise and leave the
@@ -270,7 +273,7 @@ def execute(doc):
       rpath = os.path.join(sdir, name + '_recipe.json')
       if op['via'] == 'save' and last is not None:
         try:
-          last['result'].save(sdir, name)
+          last['result'].save(sdir + ('/' if doc['knobs'].get('folder_trailing_slash') else ''), name)
           with open(os.path.join(sdir, name + '.tflite'), 'rb') as f:
             saved = f.read()
           with open(rpath) as f:
